@@ -47,6 +47,9 @@ enum ThreadCfg {
 #[derive(Clone, Debug)]
 struct Cfg {
     fast: bool,
+    /// `g0`/`g1` configurations: NO freshness callback and NO on_should_reload callback are registered
+    /// (the `None` arms of `should_reload` / `request_reload`)
+    no_callbacks: bool,
     threads: Vec<ThreadCfg>,
 }
 
@@ -54,7 +57,7 @@ fn parse_cfg(s: &str) -> Option<Cfg> {
     let mut it = s.split('.');
     let f = it.next()?;
     let e = it.next()?;
-    if !(f == "f0" || f == "f1") || !(e == "e0" || e == "e1") {
+    if !(f == "f0" || f == "f1" || f == "g0" || f == "g1") || !(e == "e0" || e == "e1") {
         return None;
     }
     let mut threads = vec![];
@@ -85,7 +88,7 @@ fn parse_cfg(s: &str) -> Option<Cfg> {
             threads.push(ThreadCfg::Acq { cb: b[2] == b'1', fails: b[4] - b'0', script });
         }
     }
-    Some(Cfg { fast: f == "f1", threads })
+    Some(Cfg { fast: f.ends_with('1'), no_callbacks: f.starts_with('g'), threads })
 }
 
 // ------------------------------------------------------------------------------------------------
@@ -160,6 +163,9 @@ thread_local! {
 thread_local! {
     /// the next BeforeSet hook of this thread was already announced by the harness itself
     static SKIP_S: std::cell::Cell<bool> = const { std::cell::Cell::new(false) };
+    /// the creator this thread called has just returned Err: the next notifier look-up of this thread
+    /// is the one of `keep_reload_pending` (yield point "F" = before the reload is marked pending again)
+    static CREATOR_FAILED: std::cell::Cell<bool> = const { std::cell::Cell::new(false) };
 }
 
 fn point_code(p: Point) -> &'static str {
@@ -174,6 +180,7 @@ fn point_code(p: Point) -> &'static str {
         "BeforeRemark" => "F",
         "BeforeSet" => "S",
         "AfterSet" => "T",
+        "AfterClear" => "E",
         _ => "?",
     }
 }
@@ -185,7 +192,16 @@ fn install_yield() {
             if p == Point::BeforeSet && SKIP_S.with(|c| c.replace(false)) {
                 return;
             }
-            sched.arrive(i, point_code(p));
+            let mut code = point_code(p);
+            if format!("{:?}", p) == "Handle" {
+                // every Notifier entry point looks the shared state up; only the first look-up after a
+                // failed creator call is a yield point
+                if !CREATOR_FAILED.with(|c| c.replace(false)) {
+                    return;
+                }
+                code = "F";
+            }
+            sched.arrive(i, code);
         }
     })));
 }
@@ -204,6 +220,15 @@ fn step_timeout() -> Duration {
 
 /// run one schedule on the real reloader; returns the canonical observation line
 fn run_schedule(cfg: &Cfg, sched_s: &str) -> String {
+    run_schedule_poke(cfg, sched_s, None)
+}
+
+/// `poke = Some(t)`: after the schedule (a PREFIX of a model schedule that ends in a state in which the
+/// model says thread `t` is blocked on the cached_env mutex) thread `t` is released from its BeforeLock
+/// point; it must NOT reach its next yield point while the holder stands still (bounded wait; the
+/// verdict "blocked" is the expected one and is what the unchanged code always gives).  Then
+/// everything runs freely to its end.  `|K=blocked` or `|K=arrived@<point>` is appended.
+fn run_schedule_poke(cfg: &Cfg, sched_s: &str, poke: Option<usize>) -> String {
     let n = cfg.threads.len();
     let sched = Arc::new(Sched::new(n));
     let obs = Arc::new(Mutex::new(Obs { acq: vec![None; n], ..Default::default() }));
@@ -239,6 +264,7 @@ fn run_schedule(cfg: &Cfg, sched_s: &str) -> String {
                 panic!("creator panicked (scripted)");
             }
             if fails == 1 {
+                CREATOR_FAILED.with(|c| c.set(true));
                 return Err(Error::new(ErrorKind::InvalidOperation, "creator failed (scripted)"));
             }
             let mut env = Environment::new();
@@ -259,8 +285,10 @@ fn run_schedule(cfg: &Cfg, sched_s: &str) -> String {
         notifier.set_fast_reload(true);
     }
     // freshness callback: answers what the polling acquire's configuration says
-    notifier.set_callback(|| CTX.with(|c| c.borrow().as_ref().map(|x| x.2).unwrap_or(false)));
-    {
+    if !cfg.no_callbacks {
+        notifier.set_callback(|| CTX.with(|c| c.borrow().as_ref().map(|x| x.2).unwrap_or(false)));
+    }
+    if !cfg.no_callbacks {
         let on_calls = on_calls.clone();
         notifier.set_on_should_reload_callback(move || {
             on_calls.fetch_add(1, Ordering::SeqCst);
@@ -393,9 +421,30 @@ fn run_schedule(cfg: &Cfg, sched_s: &str) -> String {
             }
         }
     }
+    let mut poke_result: Option<String> = None;
+    if let (None, Some(t)) = (&bad, poke) {
+        let mut g = sched.m.lock().unwrap();
+        if t >= n || g.at[t] != Some("L") {
+            bad = Some(format!("bad:cannot-poke:{}", t));
+        } else {
+            g.turn = Some(t);
+            sched.wcv[t].notify_all();
+            let wait = Duration::from_millis(std::env::var("C20_POKE_MS").ok().and_then(|s| s.parse().ok()).unwrap_or(120));
+            let deadline = Instant::now() + wait;
+            while g.turn == Some(t) {
+                let now = Instant::now();
+                if now >= deadline {
+                    break;
+                }
+                g = sched.cv.wait_timeout(g, deadline - now).unwrap().0;
+            }
+            poke_result = Some(if g.turn == Some(t) { "blocked".to_string() } else { format!("arrived@{}", g.at[t].unwrap_or("?")) });
+            g.turn = None;
+        }
+    }
     // the real code needs more steps than the schedule has: continue deterministically (threads that
     // are in the middle of an operation first - they cannot be blocked on the cached_env mutex)
-    while bad.is_none() && extra.len() < 64 {
+    while bad.is_none() && poke.is_none() && extra.len() < 64 {
         let next = {
             let g = sched.m.lock().unwrap();
             let waiting = |i: &usize| g.at[*i].is_some() && g.at[*i] != Some("D");
@@ -411,7 +460,7 @@ fn run_schedule(cfg: &Cfg, sched_s: &str) -> String {
     let all_done = {
         let mut g = sched.m.lock().unwrap();
         let unfinished = g.finished < n;
-        if unfinished && bad.is_none() {
+        if unfinished && bad.is_none() && poke.is_none() {
             bad = Some("bad:unfinished-threads".into());
         }
         g.free_run = true;
@@ -447,8 +496,11 @@ fn run_schedule(cfg: &Cfg, sched_s: &str) -> String {
         acq.join(","),
         o.builds.join(","),
         gen.load(Ordering::SeqCst),
-        on_calls.load(Ordering::SeqCst)
+        if cfg.no_callbacks { "-".to_string() } else { on_calls.load(Ordering::SeqCst).to_string() }
     );
+    if let Some(p) = poke_result {
+        line.push_str(&format!("|K={}", p));
+    }
     if !extra.is_empty() {
         line.push_str(&format!("|X={}", extra));
     }
@@ -510,6 +562,22 @@ fn gen_cfgs(tier: &str) {
             }
         }
     }
+    // (1g) the same shapes with NO freshness callback and NO on_should_reload callback registered (the
+    //      `None` arms of should_reload / request_reload): `g<fast>` instead of `f<fast>`
+    for f in 0..2u8 {
+        for na in 1..=2usize {
+            for nr in 0..=2usize {
+                let c = mk(f, 0, &vec![plain; na], nr).replacen('f', "g", 1);
+                writeln!(out, "{} upto {} {}", c, if tier == "thorough" { 3000 } else { 250 }, rng.next() >> 16).unwrap();
+            }
+        }
+        for acqs in [vec![plain, "c0x1-", plain], vec!["c0x0r", plain, plain], vec![plain, "c0x2-", plain]] {
+            for nr in 0..=1usize {
+                let c = mk(f, 1, &acqs, nr).replacen('f', "g", 1);
+                writeln!(out, "{} upto {} {}", c, if tier == "thorough" { 6000 } else { 120 }, rng.next() >> 16).unwrap();
+            }
+        }
+    }
     // (2) small configurations with one special acquire (request from inside the creator, failing
     //     creator, freshness callback, creator switching fast reload on), every schedule
     for f in 0..2u8 {
@@ -534,6 +602,11 @@ fn gen_cfgs(tier: &str) {
                     t[pos] = v;
                     for nr in 0..=1usize {
                         writeln!(out, "{} upto 200 {}", mk(f, 1, &t, nr), rng.next() >> 16).unwrap();
+                    }
+                    // one failing creator among three acquirers + TWO requests (re-armed flag + a request
+                    // during the failed build + a request after it)
+                    if matches!(v, "c0x1-" | "c0x1r" | "c1x1-" | "c1x1r") {
+                        writeln!(out, "{} upto 150 {}", mk(f, 1, &t, 2), rng.next() >> 16).unwrap();
                     }
                 }
             }
@@ -629,21 +702,20 @@ fn probe() {
     // while a guard is held a second acquire_env does not get past the lock
     let cfg = parse_cfg("f0.e0.Ac0x0-.Ac0x0-").unwrap();
     let cfg3 = parse_cfg("f0.e0.Ac0x0-.Ac0x0-.R").unwrap();
-    std::env::set_var("C20_TIMEOUT_MS", "150");
-    // thread 0 up to Holding, then thread 1 is (wrongly) scheduled: it must time out, and after
-    // the wind-down both must have seen the same environment (no request was made)
-    let r = run_schedule(&cfg, "000001");
-    let blocked = r.starts_with("bad:timeout@5:1|") && r.contains("|A=0:g1l1,1:g1l1|") && r.contains("|C=1|");
+    // thread 0 up to Holding, then thread 1 is released from BeforeLock: it must not get anywhere while
+    // the guard is held (bounded wait), and after the wind-down both must have seen the same
+    // environment (no request was made).  Every other step is a wait for an arrival that must happen.
+    let r = run_schedule_poke(&cfg, "00000", Some(1));
+    let blocked = r.starts_with("P=K,Z,B,C,H|") && r.contains("|A=0:g1l1,1:g1l1|") && r.contains("|C=1|") && r.ends_with("|K=blocked");
     println!("probe\tsecond-acquire-blocked-while-guard-held\t{}\t{}", if blocked { "ok" } else { "FAIL" }, r);
-    // same while the creator is running
-    let r = run_schedule(&cfg, "0001");
-    let blocked = r.starts_with("bad:timeout@3:1|") && r.contains("|A=0:g1l1,1:g1l1|") && r.contains("|C=1|");
+    // same just before the creator runs
+    let r = run_schedule_poke(&cfg, "000", Some(1));
+    let blocked = r.starts_with("P=K,Z,B|") && r.contains("|A=0:g1l1,1:g1l1|") && r.contains("|C=1|") && r.ends_with("|K=blocked");
     println!("probe\tsecond-acquire-blocked-while-creator-runs\t{}\t{}", if blocked { "ok" } else { "FAIL" }, r);
     // a requester is never blocked by a held guard
     let r = run_schedule(&cfg3, "000002201111111");
     let ok = r == "P=K,Z,B,C,H,T,D,D,Q,K,Z,B,C,H,D|A=0:g1l1,1:g2l2|G=1@3,2@12|C=2|O=1";
     println!("probe\trequest-not-blocked-by-guard\t{}\t{}", if ok { "ok" } else { "FAIL" }, r);
-    std::env::remove_var("C20_TIMEOUT_MS");
     set_yield(None);
 
     // dead notifiers: every entry point on a handle that outlived its reloader is a no-op
@@ -701,6 +773,78 @@ fn probe() {
     let ok = r.as_deref() == Ok("112");
     println!("probe\tkept-notifier-request-served\t{}\t{:?}", if ok { "ok" } else { "FAIL" }, r);
 
+    // contention on the NOTIFIER mutex: the freshness callback is user code that runs UNDER it (it
+    // "usually stats files"): a request_reload issued meanwhile has to wait and must not be dropped.
+    // (the sleep only gives the requester time to reach the mutex; the verdict on the unchanged code
+    //  does not depend on it: every wait below is for an event that must happen)
+    for fast in [false, true] {
+        let r = guarded(|| {
+            let n = Arc::new(AtomicUsize::new(0));
+            let loads = Arc::new(AtomicUsize::new(0));
+            let (n2, l2) = (n.clone(), loads.clone());
+            let reloader = Arc::new(AutoReloader::new(move |_| {
+                let mut env = Environment::new();
+                env.add_global("gen", n2.fetch_add(1, Ordering::SeqCst) + 1);
+                let l3 = l2.clone();
+                env.set_loader(move |name| {
+                    Ok((name == "t").then(|| format!("g{{{{ gen }}}}l{}", l3.fetch_add(1, Ordering::SeqCst) + 1)))
+                });
+                Ok(env)
+            }));
+            reloader.notifier().set_fast_reload(fast);
+            let gate = Arc::new((Mutex::new(0u8), Condvar::new()));
+            let g2 = gate.clone();
+            reloader.notifier().set_callback(move || {
+                let (m, cv) = &*g2;
+                let mut g = m.lock().unwrap();
+                if *g == 1 {
+                    *g = 2;
+                    cv.notify_all();
+                    while *g != 3 {
+                        g = cv.wait(g).unwrap();
+                    }
+                }
+                false
+            });
+            let see = |r: &AutoReloader| r.acquire_env().unwrap().get_template("t").unwrap().render(()).unwrap();
+            let a = see(&reloader);
+            *gate.0.lock().unwrap() = 1;
+            let r1 = reloader.clone();
+            let t1 = std::thread::spawn(move || r1.acquire_env().unwrap().get_template("t").unwrap().render(()).unwrap());
+            {
+                let (m, cv) = &*gate;
+                let mut g = m.lock().unwrap();
+                let deadline = Instant::now() + Duration::from_secs(20);
+                while *g != 2 {
+                    let now = Instant::now();
+                    if now >= deadline {
+                        *g = 3;
+                        cv.notify_all();
+                        return "callback-not-polled".to_string();
+                    }
+                    g = cv.wait_timeout(g, deadline - now).unwrap().0;
+                }
+            }
+            // the acquirer sits in the freshness callback, holding the notifier mutex
+            let no = reloader.notifier();
+            let t2 = std::thread::spawn(move || no.request_reload());
+            std::thread::sleep(Duration::from_millis(80));
+            {
+                let (m, cv) = &*gate;
+                *m.lock().unwrap() = 3;
+                cv.notify_all();
+            }
+            t2.join().unwrap();
+            let b = t1.join().unwrap();
+            // the request has returned: the next acquire must serve it
+            let c = see(&reloader);
+            format!("{} {} {}", a, b, c)
+        });
+        let want = if fast { "g1l1 g1l1 g1l2" } else { "g1l1 g1l1 g2l2" };
+        let ok = r.as_deref() == Ok(want);
+        println!("probe\trequest-while-freshness-callback-holds-notifier-mutex-fast{}\t{}\t{:?}", fast as u8, if ok { "ok" } else { "FAIL" }, r);
+    }
+
     // information (outside C20's statement): a PANICKING creator poisons the cached_env mutex
     let reloader = Arc::new(AutoReloader::new(|_| -> Result<Environment<'static>, Error> { panic!("creator panicked") }));
     let first = guarded(|| reloader.acquire_env().map(|_| ()).map_err(|e| format!("{:?}", e.kind())));
@@ -733,6 +877,15 @@ fn main() {
                 let line = line.unwrap();
                 let mut f = line.split('\t');
                 let (Some(c), Some(s)) = (f.next(), f.next()) else { continue };
+                let poke: Option<usize> = f.next().and_then(|x| x.strip_prefix("poke=")).and_then(|x| x.parse().ok());
+                if let Some(t) = poke {
+                    let res = match parse_cfg(c) {
+                        Some(cfg) => run_schedule_poke(&cfg, s, Some(t)),
+                        None => "bad:cfg".to_string(),
+                    };
+                    writeln!(out, "{}\t{}!{}\t{}", c, s, t, res).unwrap();
+                    continue;
+                }
                 let res = if give_up {
                     "bad:skipped-after-8-timeouts".to_string()
                 } else {
